@@ -6,7 +6,7 @@ L2 asm managers (typed object level): a function that completes a lane job also 
 L3 16-bit lane lengths: every mode/algorithm dispatched to a manager with 16-bit lens[] has a validation bound <= 0xFFFF"""
 import re
 from .. import cf, guards, build, dispatch as D, asmtyped
-from . import c05, c06
+from . import c05, c06, inits
 
 
 def run_l1(chk, P):
@@ -239,8 +239,8 @@ def run_l3(chk, P):
         from . import inits
         rf = inits.reset_functions(P)
         ftype = {}
-        if P.has(tu, 'reset_ooo_mgrs'):
-            for _, _, ev in P.func(tu, 'reset_ooo_mgrs').calls():
+        if inits.reset_fn_name(P, tu):
+            for _, _, ev in P.func(tu, inits.reset_fn_name(P, tu)).calls():
                 if ev['e'].get('fn') in rf and ev['e']['a']:
                     ftype[cf.strip_casts(ev['e']['a'][0]).get('f')] = rf[ev['e']['fn']]['T']
 
